@@ -21,7 +21,7 @@ RULES = {
     "R3": "thresholds: remaining < k (insufficient), selected < k (in progress); per-plate counters; arm conditions",
     "R4": "select_next_plate: policy consulted unless `policy is None`; receives batch plates and the candidate list",
 }
-MIN = {"R1": 1, "R2": 1, "R3": 5, "R4": 2}
+MIN = {"R1": 1, "R2": 1, "R3": 7, "R4": 2}
 TRUSTED = ["python dict/defaultdict semantics", "Plate.sample_ids[0] is the plate's sample once R1 holds"]
 TECHNIQUE = "guard dominance on the CFG, counter-idiom recognition, integer relational normal forms of the thresholds"
 LEVEL_TEXT = ("Decides the filter's one-step contract (who may be returned, under which integer thresholds) for all k and "
@@ -32,143 +32,247 @@ LEVEL_NOTE = "Only the structure of the filter and its call site is decided; the
 F = "policies.k_per_sample.KPerSamplePlatePolicy.filter_eligible_plates"
 
 
-def counters(f, over):
-    """{counter name: key expr} for `for plate in <over>: c[key] += 1` loops (key through a one-line local)"""
-    out = {}
-    for lp in [n for n in walk_own(f.node) if isinstance(n, ast.For) and U(n.iter) == over and isinstance(n.target, ast.Name)]:
-        pv = lp.target.id
-        lenv = {n.targets[0].id: n.value for n in lp.body if isinstance(n, ast.Assign) and isinstance(n.targets[0], ast.Name)}
-        for n in lp.body:
-            if isinstance(n, ast.AugAssign) and isinstance(n.op, ast.Add) and U(n.value) == "1" and isinstance(n.target, ast.Subscript):
-                key = inline(n.target.slice, lenv)
-                if U(key).replace(" ", "") in (f"{pv}.sample_ids[0]", f"{pv}.unique_sample_ids[0]"):
-                    out[U(n.target.value)] = (lp, key)
-    return out
+from engine import builders as B
+
+
+def canon_paths(ctx, f):
+    try:
+        ps = B.paths(f.node)
+    except B.Unsupported as e:
+        raise AnalysisError(f"{f.site()}: {e} - the filter is outside the collection-building fragment this rule normalises")
+    ps = [p for p in ps if p[1] is not None]
+    ctx.need(ps, f"{f.site()}: no returning path found")
+    return ps
+
+
+def _single_gen(c):
+    """(target, iter, ifs, elt) of a one-generator comprehension / Counter(generator)"""
+    if isinstance(c, ast.Call) and U(c.func) in ("Counter", "sorted") and c.args and isinstance(c.args[0], (ast.GeneratorExp, ast.ListComp)):
+        c = c.args[0]
+    if isinstance(c, (ast.ListComp, ast.SetComp, ast.GeneratorExp)) and len(c.generators) == 1:
+        g = c.generators[0]
+        return g.target, g.iter, g.ifs, c.elt
+    return None
 
 
 def r1(ctx):
     f = ctx.fn(F)
     batch, cand = f.params[1], f.params[2]
-    g = CFG(f.node)
-    first = f.node.body[0]
-    if isinstance(first, ast.Expr) and isinstance(first.value, ast.Constant):
-        first = f.node.body[1]
+    N = Norm(strict=False)
+    env = single_defs(f.node)
+    body = [st for st in f.node.body if not (isinstance(st, ast.Expr) and isinstance(st.value, ast.Constant))]
     ok = False
-    if isinstance(first, ast.For) and U(first.iter).replace(" ", "") in (f"{batch}+{cand}", f"{cand}+{batch}", f"itertools.chain({batch},{cand})", f"chain({batch},{cand})"):
-        pv = U(first.target)
-        iff = [n for n in first.body if isinstance(n, ast.If) and n.body and isinstance(n.body[-1], ast.Raise)]
-        N = Norm(strict=False)
-        want = [N.b(parse_expr(f"{pv}.n_unique_samples != 1")), N.b(parse_expr(f"len({pv}.unique_sample_ids) != 1")), N.b(parse_expr(f"{pv}.n_unique_samples > 1"), integer=True)]
-        ok = len(iff) == 1 and len(first.body) == 1 and N.b(iff[0].test) in want
+    why = "no refusal loop precedes the filter's logic"
+    for st in body:
+        if isinstance(st, ast.Assign):
+            continue            # locals feeding the check (e.g. the concatenated list)
+        if isinstance(st, ast.For):
+            it = U(inline(st.iter, env)).replace(" ", "")
+            pv = U(st.target)
+            over_all = it in (f"{batch}+{cand}", f"{cand}+{batch}", f"itertools.chain({batch},{cand})", f"chain({batch},{cand})", f"[*{batch},*{cand}]", f"[*{cand},*{batch}]")
+            iff = [n for n in st.body if isinstance(n, ast.If) and n.body and isinstance(n.body[-1], ast.Raise)]
+            want = [N.b(parse_expr(f"{pv}.n_unique_samples != 1")), N.b(parse_expr(f"len({pv}.unique_sample_ids) != 1")), N.b(parse_expr(f"{pv}.n_unique_samples > 1"), integer=True)]
+            ok = over_all and len(iff) == 1 and len(st.body) == 1 and N.b(iff[0].test) in want
+            if not over_all:
+                why = f"the first loop runs over `{it}`, not batch + candidate plates"
+        break
     ctx.check("R1", f"{ctx.fn(F).site()}::refuses-multi-sample-plates", ok,
               "first statement: raise if any batch or candidate plate has n_unique_samples != 1",
-              "the refusal of plates containing more than one sample does not run over batch + candidate plates before the filter's logic")
+              f"the refusal of plates containing more than one sample does not run over batch + candidate plates before the filter's logic ({why})")
 
 
 def r2(ctx):
     f = ctx.fn(F)
     cand = f.params[2]
-    rets = returns(f.node)
-    ctx.need(len(rets) == 1 and isinstance(rets[0].value, ast.Name), f"{f.site()}: single `return result` not found")
-    res = rets[0].value.id
-    apps = [c for c in calls(f.node, tail="append") if U(c.func.value) == res]
-    par = enclosing_map(f.node)
+    ps = canon_paths(ctx, f)
     bad = []
-    for c in apps:
-        n = c
-        lp = None
-        while n in par:
-            n = par[n]
-            if isinstance(n, ast.For):
-                lp = n
-                break
-        if lp is None or U(lp.iter) != cand or U(c.args[0]) != U(lp.target):
-            bad.append(U(c))
-    other = [n for n in walk_own(f.node) if isinstance(n, (ast.Assign, ast.AugAssign)) and res in [U(t) for t in (n.targets if isinstance(n, ast.Assign) else [n.target])]]
-    init_ok = len(other) == 1 and U(other[0].value) == "[]"
-    ctx.check("R2", f"{f.site()}::returns-candidates-only", apps and not bad and init_ok,
-              f"{len(apps)} append site(s): each appends the loop variable of a loop over `{cand}`",
-              f"a returned plate does not come from the candidate list: {bad or 'result is not built by appending only'}")
+    for conds, ret, env, checks in ps:
+        g = _single_gen(ret) if isinstance(ret, ast.ListComp) else None
+        if g is None or U(g[1]) != cand or not isinstance(g[0], ast.Name) or U(g[3]) != g[0].id:
+            bad.append(U(ret)[:100])
+    ctx.check("R2", f"{f.site()}::returns-candidates-only", not bad,
+              f"{len(ps)} return path(s): each returns [plate for plate in {cand} if ...]",
+              f"a returned plate does not come from the candidate list: {bad}")
+
+
+def _flatten_membership(e, env):
+    """conjunction (list of tests) with `x not in A.union(B)` / `A | B` split, `.keys()` dropped, and names bound to such unions read through"""
+    out = []
+
+    def unions(c):
+        if isinstance(c, ast.Name) and c.id in env and (isinstance(env[c.id], ast.BinOp) or (isinstance(env[c.id], ast.Call) and attr_tail(env[c.id]) in ("union", "keys"))
+                                                     or (isinstance(env[c.id], ast.Call) and U(env[c.id].func) in ("set", "frozenset") and env[c.id].args and isinstance(env[c.id].args[0], ast.Name))):
+            return unions(env[c.id])
+        if isinstance(c, ast.BinOp) and isinstance(c.op, ast.BitOr):
+            return unions(c.left) + unions(c.right)
+        if isinstance(c, ast.Call) and attr_tail(c) == "union":
+            r = unions(c.func.value)
+            for a in c.args:
+                r += unions(a)
+            return r
+        if isinstance(c, ast.Call) and attr_tail(c) == "keys" and not c.args:
+            return unions(c.func.value)
+        if isinstance(c, ast.Call) and U(c.func) in ("set", "frozenset") and len(c.args) == 1 and isinstance(c.args[0], (ast.Name, ast.Call)):
+            return unions(c.args[0])
+        return [c]
+
+    def go(t):
+        if isinstance(t, ast.BoolOp) and isinstance(t.op, ast.And):
+            for v in t.values:
+                go(v)
+            return
+        if isinstance(t, ast.Compare) and len(t.ops) == 1 and isinstance(t.ops[0], ast.NotIn):
+            for u in unions(t.comparators[0]):
+                out.append(ast.Compare(left=t.left, ops=[ast.NotIn()], comparators=[u]))
+            return
+        if isinstance(t, ast.UnaryOp) and isinstance(t.op, ast.Not) and isinstance(t.operand, ast.Compare) and len(t.operand.ops) == 1 and isinstance(t.operand.ops[0], ast.In):
+            go(ast.Compare(left=t.operand.left, ops=[ast.NotIn()], comparators=t.operand.comparators))
+            return
+        if isinstance(t, ast.Name) and t.id in env and isinstance(env[t.id], (ast.Compare, ast.BoolOp, ast.UnaryOp)):
+            go(env[t.id])
+            return
+        out.append(t)
+    go(e)
+    return out
 
 
 def r3(ctx):
     f = ctx.fn(F)
     batch, cand = f.params[1], f.params[2]
     N = Norm(strict=False)
-    rem = counters(f, cand)
-    sel = counters(f, batch)
+    ps = canon_paths(ctx, f)
+    env = {}
+    for p in ps:
+        for k, v in p[2].items():
+            env.setdefault(k, v)
+
+    def counters_over(lst):
+        out = {}
+        other = []
+        for k, v in env.items():
+            if isinstance(v, ast.Call) and U(v.func) == "Counter" and v.args:
+                g = _single_gen(v)
+                if g and U(g[1]) == lst and isinstance(g[0], ast.Name):
+                    pv = g[0].id
+                    if U(g[3]).replace(" ", "") in (f"{pv}.sample_ids[0]", f"{pv}.unique_sample_ids[0]") and not g[2]:
+                        out[k] = v
+                    else:
+                        other.append(f"{k} = {U(v)[:80]}")
+        return out, other
+    rem, rem_other = counters_over(cand)
+    sel, sel_other = counters_over(batch)
+    if not rem and not rem_other:
+        raise AnalysisError(f"{f.site()}: no per-sample counter over `{cand}` found in a recognised form")
+    if not sel and not sel_other:
+        raise AnalysisError(f"{f.site()}: no per-sample counter over `{batch}` found in a recognised form")
     ctx.check("R3", f"{f.site()}::remaining-counted-per-plate", len(rem) == 1,
               "remaining plates per sample: one increment per candidate plate keyed by the plate's sample",
-              "the per-sample count of remaining plates is not `for plate in unobserved_plates: count[plate.sample_ids[0]] += 1` "
+              f"the per-sample count of remaining plates is not one increment per candidate plate keyed by plate.sample_ids[0] ({rem_other}) "
               "(counting experiments instead of plates opens samples that cannot be completed)")
     ctx.check("R3", f"{f.site()}::selected-counted-per-plate", len(sel) == 1,
               "selected plates per sample: one increment per batch plate keyed by the plate's sample",
-              "the per-sample count of already selected plates is not `for plate in batch_plates: count[plate.sample_ids[0]] += 1` "
+              f"the per-sample count of already selected plates is not one increment per batch plate keyed by plate.sample_ids[0] ({sel_other}) "
               "(batch plates arrive in plate-id order, not selection order: only per-sample counts identify the sample in progress)")
     if len(rem) != 1 or len(sel) != 1:
         return
     remc, selc = next(iter(rem)), next(iter(sel))
-    # insufficient set: for s, v in remc.items(): if v < k: set.add(s)
+
+    def threshold_comp(v, src):
+        """for a comprehension over src.items() selecting the key: (found, threshold ok, test text)"""
+        g = _single_gen(v)
+        if g is None or U(g[1]).replace(" ", "") != f"{src}.items()" or not (isinstance(g[0], ast.Tuple) and len(g[0].elts) == 2):
+            return None
+        kv = [U(t) for t in g[0].elts]
+        if U(g[3]) != kv[0] or len(g[2]) != 1:
+            return None
+        return (N.b(g[2][0], integer=True) == N.b(parse_expr(f"{kv[1]} < self.k"), integer=True), U(g[2][0]))
     insuff = None
     chosen = None
-    for lp in [n for n in walk_own(f.node) if isinstance(n, ast.For) and isinstance(n.iter, ast.Call) and attr_tail(n.iter) == "items"]:
-        src = U(n_iter_base(lp))
-        kv = [U(t) for t in lp.target.elts] if isinstance(lp.target, ast.Tuple) else []
-        if len(kv) != 2 or len(lp.body) != 1 or not isinstance(lp.body[0], ast.If) or lp.body[0].orelse:
-            continue
-        iff = lp.body[0]
-        b = N.b(iff.test, integer=True)
-        if src == remc and len(iff.body) == 1:
-            st = iff.body[0]
-            if isinstance(st, ast.Expr) and isinstance(st.value, ast.Call) and attr_tail(st.value) == "add" and U(st.value.args[0]) == kv[0]:
-                insuff = (U(st.value.func.value), b == N.b(parse_expr(f"{kv[1]} < self.k"), integer=True), U(iff.test))
-        if src == selc and len(iff.body) == 1:
-            st = iff.body[0]
-            if isinstance(st, ast.Assign) and U(st.value) == kv[0]:
-                chosen = (U(st.targets[0]), b == N.b(parse_expr(f"{kv[1]} < self.k"), integer=True), U(iff.test))
-    ctx.check("R3", f"{f.site()}::insufficient-iff-remaining<k", insuff is not None and insuff[1],
+    for k, v in env.items():
+        if isinstance(v, ast.SetComp):
+            t = threshold_comp(v, remc)
+            if t:
+                insuff = (k,) + t
+        if isinstance(v, ast.Call) and U(v.func) == "__last__":
+            t = threshold_comp(v.args[0], selc)
+            if t:
+                chosen = (k,) + t
+    if insuff is None:
+        raise AnalysisError(f"{f.site()}: the set of samples with insufficient remaining plates (a selection over {remc}.items()) was not found in a recognised form")
+    if chosen is None:
+        raise AnalysisError(f"{f.site()}: the sample in progress (last key of {selc}.items() under a threshold) was not found in a recognised form")
+    ctx.check("R3", f"{f.site()}::insufficient-iff-remaining<k", insuff[1],
               "a sample is insufficient iff its remaining plate count < k",
-              f"insufficient-sample threshold is `{insuff[2] if insuff else 'not found'}`, not `remaining < self.k` "
+              f"insufficient-sample threshold is `{insuff[2]}`, not `remaining < self.k` "
               f"(with <= a sample with exactly k plates left can never be opened; with a weaker test an uncompletable sample is opened)")
-    ctx.check("R3", f"{f.site()}::in-progress-iff-selected<k", chosen is not None and chosen[1],
+    ctx.check("R3", f"{f.site()}::in-progress-iff-selected<k", chosen[1],
               "a sample is in progress iff its selected plate count < k",
-              f"in-progress threshold is `{chosen[2] if chosen else 'not found'}`, not `selected < self.k`")
-    if insuff is None or chosen is None:
-        return
-    # arms
-    res = returns(f.node)[0].value.id
-    top = [n for n in f.node.body if isinstance(n, ast.If) and any(attr_tail(c) == "append" for c in calls(n))]
-    ctx.need(len(top) == 1, f"{f.site()}: the two-armed result construction not found")
-    iff = top[0]
-    b = N.b(iff.test)
-    inprog_first = b == N.b(parse_expr(f"{chosen[0]} is not None"))
-    ctx.need(inprog_first or b == N.b(parse_expr(f"{chosen[0]} is None")), f"{f.site()}: arm test `{U(iff.test)}` is not a None test of `{chosen[0]}`")
-    arm_in, arm_new = (iff.body, iff.orelse) if inprog_first else (iff.orelse, iff.body)
+              f"in-progress threshold is `{chosen[2]}`, not `selected < self.k`")
+    # arms: the path taken when a sample is in progress / when none is
+    arm_in = arm_new = None
+    for conds, ret, penv, checks in ps:
+        pol = None
+        for t, p_ in conds:
+            b = N.b(t)
+            if b == N.b(parse_expr(f"{chosen[0]} is not None")):
+                pol = p_
+            elif b == N.b(parse_expr(f"{chosen[0]} is None")):
+                pol = not p_
+            else:
+                raise AnalysisError(f"{f.site()}: arm test `{U(t)}` is not a None test of `{chosen[0]}`")
+        if pol is True:
+            arm_in = (ret, penv)
+        elif pol is False:
+            arm_new = (ret, penv)
+    ctx.need(arm_in is not None and arm_new is not None, f"{f.site()}: the two-armed result construction (sample in progress / none) not found")
 
-    def arm_condition(stmts):
-        lp = [n for n in stmts if isinstance(n, ast.For) and U(n.iter) == cand]
-        if len(lp) != 1:
+    def arm_condition(arm):
+        ret, penv = arm
+        g = _single_gen(ret) if isinstance(ret, ast.ListComp) else None
+        if g is None or U(g[1]) != cand or not isinstance(g[0], ast.Name):
             return None, None
-        lp = lp[0]
-        lenv = {n.targets[0].id: n.value for n in lp.body if isinstance(n, ast.Assign) and isinstance(n.targets[0], ast.Name)}
-        ifs = [n for n in lp.body if isinstance(n, ast.If)]
-        if len(ifs) != 1 or not any(attr_tail(c) == "append" for c in calls(ifs[0])) or ifs[0].orelse:
-            return None, None
-        return Norm(strict=False, env=lenv).b(ifs[0].test), U(lp.target)
+        tests = []
+        for t in g[2]:
+            tests += _flatten_membership(t, penv)
+        return frozenset(N.b(t) for t in tests), g[0].id
     c_in, pv = arm_condition(arm_in)
-    want_in = None if pv is None else [N.b(parse_expr(f"{pv}.sample_ids[0] == {chosen[0]}")), N.b(parse_expr(f"{chosen[0]} == {pv}.sample_ids[0]"))]
+    want_in = None if pv is None else [frozenset([N.b(parse_expr(f"{pv}.sample_ids[0] == {chosen[0]}"))])]
     ctx.check("R3", f"{f.site()}::in-progress-arm", c_in is not None and c_in in want_in,
               "while a sample is in progress only plates with that sample id are returned",
               "the in-progress arm does not return exactly the candidate plates whose sample equals the sample in progress")
     c_new, pv2 = arm_condition(arm_new)
-    want_new = None if pv2 is None else N.b(parse_expr(f"({pv2}.sample_ids[0] not in {insuff[0]}) and ({pv2}.sample_ids[0] not in {selc})"))
+    want_new = None if pv2 is None else frozenset([N.b(parse_expr(f"{pv2}.sample_ids[0] not in {insuff[0]}")), N.b(parse_expr(f"{pv2}.sample_ids[0] not in {selc}"))])
     ctx.check("R3", f"{f.site()}::new-sample-arm", c_new is not None and c_new == want_new,
               "otherwise only samples that are neither insufficient nor already in the batch are returned",
               "the new-sample arm does not require `sample not in insufficient` and `sample not already selected`")
 
 
-def n_iter_base(lp):
-    return lp.iter.func.value
+def r3_deviant(ctx):
+    """recognised-wrong constructions (independent of the canonical form): positional reads of the batch list, and
+    per-experiment instead of per-plate counting"""
+    f = ctx.fn(F)
+    batch, cand = f.params[1], f.params[2]
+    pos = []
+    for n in walk_own(f.node):
+        if isinstance(n, ast.Subscript) and isinstance(n.value, ast.Name) and n.value.id == batch and not isinstance(n.slice, ast.Slice):
+            pos.append(U(n))
+        if isinstance(n, ast.BinOp) and isinstance(n.op, (ast.Mod, ast.FloorDiv)) and f"len({batch})" in U(n.left).replace(" ", ""):
+            pos.append(U(n))
+    ctx.check("R3", f"{f.site()}::batch-order-not-used", not pos, f"no positional read of `{batch}` and no arithmetic on its length",
+              f"the filter reads `{batch}` by position / by length arithmetic ({pos}): batch plates arrive in plate-id order, not selection order, "
+              f"so only per-sample counts identify the sample in progress")
+    per_exp = []
+    for n in walk_own(f.node):
+        # np.unique(np.concatenate([p.sample_ids for p in plates]), return_counts=True) / Counter(s for p in plates for s in p.sample_ids)
+        if isinstance(n, ast.Call) and call_name(n) in ("np.concatenate", "np.hstack", "itertools.chain.from_iterable", "chain.from_iterable") and n.args \
+                and isinstance(n.args[0], (ast.ListComp, ast.GeneratorExp)) and U(n.args[0].elt).endswith(".sample_ids"):
+            per_exp.append(U(n)[:80])
+        if isinstance(n, (ast.GeneratorExp, ast.ListComp)) and len(n.generators) == 2 and U(n.generators[1].iter).endswith(".sample_ids"):
+            per_exp.append(U(n)[:80])
+        if isinstance(n, ast.AugAssign) and isinstance(n.target, ast.Subscript) and U(n.value).replace(" ", "") in ("plate.size", "len(plate.sample_ids)", "plate.sample_ids.shape[0]"):
+            per_exp.append(U(n)[:80])
+    ctx.check("R3", f"{f.site()}::counts-plates-not-experiments", not per_exp, "no per-experiment tally of sample ids",
+              f"sample ids are tallied per experiment ({per_exp}), not per plate: a sample with few large plates looks sufficient / complete when it is not")
 
 
 def r4(ctx):
@@ -187,24 +291,55 @@ def r4(ctx):
     ok = iff is not None and N.b(iff.test) in (N.b(parse_expr("policy is None")), N.b(parse_expr("policy is not None")))
     ctx.check("R4", f"{f.site()}::policy-always-consulted", ok, "the policy is bypassed only when `policy is None`",
               f"the policy is consulted under `{U(iff.test) if iff is not None else '?'}`: some selections bypass it (e.g. the first plate of a batch)")
-    env = single_defs(f.node)
     kw = kwargs(pc[0])
-    bp = inline(kw.get("batch_plates"), env, depth=1) if "batch_plates" in kw else None
-    up = kw.get("unobserved_plates")
-    bp_ok = bp is not None and U(bp).replace(" ", "") == "[plateforplateinscreen.platesifplate.plate_idinbatch_plate_ids]"
-    # candidates: unobserved and not in batch (optionally sorted by plate id)
-    cand_defs = [n.value for n in walk_own(f.node) if isinstance(n, ast.Assign) and up is not None and U(n.targets[0]) == U(up)]
-    cand_ok = False
-    for v in cand_defs:
-        if isinstance(v, ast.ListComp) and U(v.generators[0].iter) == "screen.plates" and len(v.generators[0].ifs) == 1:
-            pv = U(v.generators[0].target)
-            cand_ok = N.b(v.generators[0].ifs[0]) == N.b(parse_expr(f"(not {pv}.is_observed) and ({pv}.plate_id not in batch_plate_ids)"))
+    ctx.need("batch_plates" in kw and "unobserved_plates" in kw, f"{f.site()}: the policy call does not pass batch_plates= and unobserved_plates= by keyword")
+    # canonical values of the two arguments at the call: the statements before the policy `if` are a straight line of builders
+    top = [st for st in f.node.body]
+    idx = next((i for i, st in enumerate(top) if iff is not None and (st is iff or iff in list(ast.walk(st)))), None)
+    ctx.need(idx is not None, f"{f.site()}: policy call is not under a top-level if")
+    pre = ast.FunctionDef(name="_pre", args=f.node.args, body=[st for st in top[:idx] if not (isinstance(st, ast.If) and _is_default_guard(st))] +
+                          [ast.Return(value=ast.Tuple(elts=[kw["batch_plates"], kw["unobserved_plates"]], ctx=ast.Load()))], decorator_list=[], lineno=0, col_offset=0)
+    try:
+        ps = B.paths(pre)
+    except B.Unsupported as e:
+        raise AnalysisError(f"{f.site()}: {e} - the plate lists handed to the policy are built outside the recognised collection idioms")
+    ctx.need(len(ps) == 1 and isinstance(ps[0][1], ast.Tuple), f"{f.site()}: the statements before the policy call are not a straight line")
+    penv = ps[0][2]
+    bp, up = [penv.get(x.id, x) if isinstance(x, ast.Name) else x for x in ps[0][1].elts]
+
+    def membership(v, want_src, sorted_ok):
+        """v is [p for p in screen.plates if <want>] (optionally sorted by plate id)"""
+        if isinstance(v, ast.Call) and U(v.func) == "sorted" and sorted_ok and v.args:
+            key = {k.arg: U(k.value).replace(" ", "") for k in v.keywords}
+            if set(key) - {"key"} or (key.get("key") and not key["key"].endswith(".plate_id")):
+                return False
+            v = v.args[0]
+            if isinstance(v, ast.Name) and v.id in penv:
+                v = penv[v.id]
+        g = _single_gen(v) if isinstance(v, ast.ListComp) else None
+        if g is None or U(g[1]) != "screen.plates" or not isinstance(g[0], ast.Name) or U(g[3]) != g[0].id:
+            return False
+        pv = g[0].id
+        got = frozenset()
+        for t in g[2]:
+            b = N.b(t)
+            got |= frozenset(b[1]) if b[0] == "and" else frozenset([b])
+        w = N.b(parse_expr(want_src.format(pv=pv)))
+        want = frozenset(w[1]) if w[0] == "and" else frozenset([w])
+        return got == want
+    bp_ok = membership(bp, "{pv}.plate_id in batch_plate_ids", False)
+    cand_ok = membership(up, "(not {pv}.is_observed) and ({pv}.plate_id not in batch_plate_ids)", True)
     ctx.check("R4", f"{f.site()}::policy-arguments", bp_ok and cand_ok,
               "policy receives the batch plates and the unobserved plates not in the batch",
-              "the policy is not given (plates whose id is in the batch, unobserved plates not in the batch)")
+              f"the policy is not given (plates whose id is in the batch, unobserved plates not in the batch): batch_plates=`{B.text(bp)[:120]}`, unobserved_plates=`{B.text(up)[:160]}`")
 
 
-RULE_FUNCS = [r1, r2, r3, r4]
+def _is_default_guard(st):
+    """`if x is None: x = <default>` parameter defaulting"""
+    return isinstance(st, ast.If) and not st.orelse and len(st.body) == 1 and isinstance(st.body[0], ast.Assign) and " is None" in U(st.test)
+
+
+RULE_FUNCS = [r1, r2, r3, r3_deviant, r4]
 
 
 def run(ctx):
